@@ -17,8 +17,19 @@ fn st_name(s: HealthStatus) -> &'static str {
     }
 }
 struct Script {
-    cur: Vec<String>,
-    checks: Vec<u64>,
+    /// per resource: the scripted results of all rounds, consumed one per check
+    queue: Vec<std::collections::VecDeque<String>>,
+    started: Vec<u64>,
+    /// checks that ended (returned, or were cut off by the check timeout)
+    done: Vec<u64>,
+}
+struct DoneGuard(Arc<Mutex<Script>>, usize);
+impl Drop for DoneGuard {
+    fn drop(&mut self) {
+        if let Ok(mut g) = self.0.lock() {
+            g.done[self.1] += 1;
+        }
+    }
 }
 async fn settle() {
     for _ in 0..12 {
@@ -31,27 +42,42 @@ async fn advance(ms: u64) {
         settle().await;
     }
 }
-/// one run: cfg + per-round scripts + selection bursts
+/// one run: cfg + per-round scripts + selection bursts. Rounds synchronise on the checks themselves (round k is over
+/// when the k-th check of every resource has ended), so they may overrun the interval.
 async fn run(cfg: &Value, rounds: &[Vec<String>], sels: &[Vec<(String, usize)>], out: &mut Vec<String>) -> usize {
     let n = cfg["n"].as_u64().unwrap() as usize;
-    let script = Arc::new(Mutex::new(Script { cur: vec!["k".into(); n], checks: vec![0; n] }));
+    let tmo_ms = cfg["tmo"].as_u64().unwrap_or(TIMEOUT);
+    let script = Arc::new(Mutex::new(Script {
+        queue: (0..n).map(|r| rounds.iter().map(|res| res[r].clone()).collect()).collect(),
+        started: vec![0; n],
+        done: vec![0; n],
+    }));
     let s2 = script.clone();
     let checker = move |r: &usize| {
         let r = *r;
         let x = {
             let mut g = s2.lock().unwrap();
-            g.checks[r] += 1;
-            g.cur[r].clone()
+            g.started[r] += 1;
+            g.queue[r].pop_front().unwrap_or_else(|| "k".to_string())
         };
+        let guard = DoneGuard(s2.clone(), r);
         async move {
+            let _g = guard;
+            // every check takes at least 1 ms: at most one round ends per instant
             match x.as_str() {
-                "h" => HealthStatus::Healthy,
-                "d" => HealthStatus::Degraded,
-                "u" => HealthStatus::Unhealthy,
-                "k" => HealthStatus::Unknown,
+                "h" => { tokio::time::sleep(Duration::from_millis(1)).await; HealthStatus::Healthy }
+                "d" => { tokio::time::sleep(Duration::from_millis(1)).await; HealthStatus::Degraded }
+                "u" => { tokio::time::sleep(Duration::from_millis(1)).await; HealthStatus::Unhealthy }
+                "k" => { tokio::time::sleep(Duration::from_millis(1)).await; HealthStatus::Unknown }
+                "x" => std::future::pending::<HealthStatus>().await, // hangs: cut off by the check timeout
+                "l" => {
+                    // late, but 1 ms inside the (long) check timeout
+                    tokio::time::sleep(Duration::from_millis(tmo_ms - 1)).await;
+                    HealthStatus::Healthy
+                }
                 _ => {
-                    // "s": slower than the check timeout (TIMEOUT); "l": the same latency under a longer timeout (cfg.tmo)
-                    tokio::time::sleep(Duration::from_millis(TIMEOUT + 2)).await;
+                    // "s": slower than the (short) check timeout
+                    tokio::time::sleep(Duration::from_millis(tmo_ms + 2)).await;
                     HealthStatus::Healthy
                 }
             }
@@ -64,7 +90,7 @@ async fn run(cfg: &Value, rounds: &[Vec<String>], sels: &[Vec<(String, usize)>],
     };
     // cfg.tmo: check timeout (default TIMEOUT; 12 = longer than the interval); cfg.ctor: 0 the wrapper's own
     // setters, 1 / 2 a HealthCheckConfig built separately (options in two orders) and handed over with with_config
-    let tmo = Duration::from_millis(cfg["tmo"].as_u64().unwrap_or(TIMEOUT));
+    let tmo = Duration::from_millis(tmo_ms);
     let (ft, sth) = (cfg["ft"].as_u64().unwrap() as u32, cfg["sth"].as_u64().unwrap() as u32);
     let mut view: Option<Value> = None;
     let mut see = |c: &HealthCheckConfig| {
@@ -104,21 +130,21 @@ async fn run(cfg: &Value, rounds: &[Vec<String>], sels: &[Vec<(String, usize)>],
         out.push(v.to_string());
         ne += 1;
     }
+    w.start().await;
+    settle().await;
     for (k, res) in rounds.iter().enumerate() {
-        {
-            let mut g = script.lock().unwrap();
-            g.cur = res.clone();
-            g.checks = vec![0; n];
+        // until the k-th check of every resource has ended (bounded: a round lasts at most timeout + interval)
+        let mut guard = 0;
+        while script.lock().unwrap().done.iter().any(|&d| d < k as u64 + 1) && guard < 60 {
+            advance(1).await;
+            guard += 1;
         }
-        if k == 0 {
-            w.start().await;
-            settle().await;
-        } else {
-            advance(1).await; // the interval tick of this round
-        }
-        advance(INTERVAL - 1).await; // checks (and check timeouts) of this round complete
+        settle().await;
         let det = w.get_health_details().await;
-        let checks = script.lock().unwrap().checks.clone();
+        let checks: Vec<u64> = {
+            let g = script.lock().unwrap();
+            g.done.iter().map(|&d| if d >= k as u64 + 1 { 1 } else { 0 }).collect()
+        };
         out.push(json!({"e":"round","k":k,"res":res,
             "status": det.iter().map(|d| st_name(d.status)).collect::<Vec<_>>(),
             "cf": det.iter().map(|d| d.consecutive_failures).collect::<Vec<_>>(),
@@ -159,8 +185,9 @@ pub fn run_health(seed: u64, size: Size, out: &mut Vec<String>) -> (usize, usize
                     1 => *rng.pick(&["u", "u", "s", "h", "d", "k"]),
                     _ => *rng.pick(&["h", "d", "u", "k", "s"]),
                 };
-                // under the longer timeout a slow check is merely late
+                // under the longer timeout a slow check is merely late; now and then a check hangs (cut off by the timeout)
                 let x = if long_tmo && x == "s" { "l" } else { x };
+                let x = if rng.pct(6) { "x" } else { x };
                 res.push(x.to_string());
             }
             rounds.push(res);
